@@ -691,3 +691,7 @@ Definition torn_body (crc : N) (x : N * option bytes) (j : N) : bytes :=
 Definition no_crc_collision_cut (crc : N) (x : N * option bytes) (j : N) : Prop :=
   let p := payload_of crc x in
   torn_body crc x j = p ++ zeros (frame_pad (blen p)) \/ accepts crc (blen p) (torn_body crc x j) = false.
+
+(* a second, independent content hash used only to print entries (FNV-1a, 32 bit) *)
+Definition fnv1a32 (bs : bytes) : N :=
+  fold_left (fun h b => N.land (N.lxor h b * 16777619) 4294967295) bs 2166136261.
